@@ -10,6 +10,7 @@ import (
 	"context"
 	"database/sql"
 	"errors"
+	"fmt"
 	"math/big"
 	"sort"
 
@@ -145,6 +146,13 @@ type mDB struct {
 	commits int
 	// ledger row of _system.ledgers
 	state string
+	// concurrent mode: statements are yield points for the logical threads of the harness, a transaction reads
+	// the latest committed state plus its own writes (READ COMMITTED), row / key / advisory locks are held until
+	// the transaction ends, and Commit replays the transaction's writes on the then-current committed state
+	concurrent bool
+	locks      map[string]*mTx
+	waiting    map[*mTx]string
+	commitLog  []string // what committed, in commit order (for ordering obligations)
 }
 
 func newMDB(l ledger.Ledger) *mDB {
@@ -175,6 +183,10 @@ type mTx struct {
 	done   bool
 	failed bool
 	date   time.Time // transaction_date(): the statement time of its first use, constant until the transaction ends
+	ops    []func(*mState) // the writes of this transaction, replayable on another base state
+	held   []string        // locks held until the transaction ends
+	name   string
+	notes  []string
 }
 
 type mStore struct {
@@ -212,6 +224,96 @@ func (s *mStore) state() *mState {
 	return s.db.committed
 }
 
+// apply performs a write: directly on the committed state for a non-transactional handle (autocommit),
+// else on the transaction's working state, remembering it for the commit-time replay.
+func (s *mStore) apply(op func(st *mState)) {
+	if s.tx == nil {
+		op(s.db.committed)
+		return
+	}
+	s.tx.ops = append(s.tx.ops, op)
+	op(s.tx.state)
+}
+
+func (t *mTx) root() *mTx {
+	for t.parent != nil {
+		t = t.parent
+	}
+	return t
+}
+
+// refresh (concurrent mode): a new statement sees what has been committed meanwhile, plus the transaction's own writes.
+func (s *mStore) refresh() {
+	if !s.db.concurrent || s.tx == nil {
+		return
+	}
+	var chain []*mTx
+	for t := s.tx; t != nil; t = t.parent {
+		chain = append([]*mTx{t}, chain...)
+	}
+	st := s.db.committed.clone()
+	for _, t := range chain {
+		for _, op := range t.ops {
+			op(st)
+		}
+		t.state = st
+		if t != s.tx {
+			st = st.clone()
+		}
+	}
+}
+
+// lock acquires a row / unique-key / advisory lock for the (outermost) transaction; it blocks while another live
+// transaction holds it. Closing a wait-for cycle is reported to the requester as a deadlock (PostgreSQL aborts
+// one participant; which one is timing dependent).
+func (s *mStore) lock(key string) error {
+	if !s.db.concurrent || s.tx == nil {
+		return nil
+	}
+	me := s.tx.root()
+	if s.db.locks == nil {
+		s.db.locks = map[string]*mTx{}
+		s.db.waiting = map[*mTx]string{}
+	}
+	if owner := s.db.locks[key]; owner != nil && owner != me {
+		// would waiting close a cycle?
+		seen := map[*mTx]bool{}
+		for o := owner; o != nil && !seen[o]; {
+			seen[o] = true
+			wk, ok := s.db.waiting[o]
+			if !ok {
+				break
+			}
+			o = s.db.locks[wk]
+			if o == me {
+				s.tx.failed = true
+				return postgres.ErrDeadlockDetected
+			}
+		}
+		s.db.waiting[me] = key
+		verifBlockUntil("lock:"+key, func() bool { o := s.db.locks[key]; return o == nil || o == me })
+		delete(s.db.waiting, me)
+		s.refresh()
+	}
+	if s.db.locks[key] == nil {
+		s.db.locks[key] = me
+		me.held = append(me.held, key)
+	}
+	return nil
+}
+
+func (s *mStore) release() {
+	if s.tx == nil || s.tx.parent != nil {
+		return
+	}
+	for _, k := range s.tx.held {
+		if s.db.locks[k] == s.tx {
+			delete(s.db.locks, k)
+		}
+	}
+	s.tx.held = nil
+}
+
 // enter is called at the beginning of every statement: journal, aborted-transaction rule, fault injection.
 func (s *mStore) enter(name string) error {
 	handle := "db"
@@ -219,6 +321,18 @@ func (s *mStore) enter(name string) error {
 		handle = "tx"
 	}
 	s.db.calls = append(s.db.calls, handle+":"+name)
+	if s.db.concurrent {
+		// context switches happen before the statements through which transactions can interact (reads of shared
+		// rows, lock-taking writes, log inserts) and before Commit; statements that only touch the transaction's own
+		// rows (BeginTX, account upserts after the volume rows are locked, schema lookups) commute with everything
+		// another transaction does and are not switch points (partial-order reduction)
+		switch name {
+		case "GetBalances", "CommitTransaction", "InsertLog", "ReadLogWithIdempotencyKey", "RevertTransaction",
+			"UpdateTransactionMetadata", "DeleteTransactionMetadata", "Logs.Paginate", "LockLedger":
+			verifYield("store:" + name)
+		}
+		s.refresh()
+	}
 	if s.tx != nil {
 		if s.tx.done {
 			return errors.New("sql: transaction has already been committed or rolled back")
@@ -254,19 +368,6 @@ func (s *mStore) fail(err error) error {
 	return err
 }
 
-func (s *mStore) volumes(account, asset string) *ledger.Volumes {
-	st := s.state()
-	if st.vols[account] == nil {
-		st.vols[account] = map[string]*ledger.Volumes{}
-	}
-	if v, ok := st.vols[account][asset]; ok {
-		return v
-	}
-	iv := s.db.initialVolumes(account, asset).Copy()
-	st.vols[account][asset] = &iv
-	return &iv
-}
-
 // ---- transactions ----
 
 func (s *mStore) BeginTX(ctx context.Context, options *sql.TxOptions) (Store, *bun.Tx, error) {
@@ -284,22 +385,36 @@ func (s *mStore) Commit(ctx context.Context) error {
 		return errors.New("sql: transaction has already been committed or rolled back")
 	}
 	s.db.calls = append(s.db.calls, "tx:Commit")
+	if s.db.concurrent {
+		verifYield("store:Commit")
+	}
 	if s.tx.failed {
 		s.tx.done = true
+		s.release()
 		return errAborted
 	}
 	if s.db.faultBudget > 0 && nondetBool("fault.Commit") {
 		s.db.faultBudget--
 		s.tx.done = true
+		s.release()
 		return errInjected
 	}
 	s.tx.done = true
 	if s.tx.parent != nil {
+		s.tx.parent.ops = append(s.tx.parent.ops, s.tx.ops...)
 		s.tx.parent.state = s.tx.state
+	} else if s.db.concurrent {
+		// replay on what is committed NOW: row locks held since the statements ran guarantee that the rows this
+		// transaction read-modified have not changed meanwhile
+		for _, op := range s.tx.ops {
+			op(s.db.committed)
+		}
+		s.db.commitLog = append(s.db.commitLog, s.tx.notes...)
 	} else {
 		s.db.committed = s.tx.state
 	}
 	s.db.commits++
+	s.release()
 	return nil
 }
 
@@ -312,6 +427,7 @@ func (s *mStore) Rollback(ctx context.Context) error {
 		return errors.New("sql: transaction has already been committed or rolled back")
 	}
 	s.tx.done = true
+	s.release()
 	return nil
 }
 
@@ -324,9 +440,43 @@ func (s *mStore) LockLedger(ctx context.Context) (Store, bun.IDB, func() error, 
 
 // ---- balances / volumes ----
 
+func volKey(account, asset string) string { return "vol:" + account + "/" + asset }
+
+// volumesIn returns the volumes row of st, materialising it from the initial (pre-history) volumes on first touch.
+func (s *mStore) volumesIn(st *mState, account, asset string) *ledger.Volumes {
+	if st.vols[account] == nil {
+		st.vols[account] = map[string]*ledger.Volumes{}
+	}
+	if v, ok := st.vols[account][asset]; ok {
+		return v
+	}
+	iv := s.db.initialVolumes(account, asset).Copy()
+	st.vols[account][asset] = &iv
+	return &iv
+}
+
+func (s *mStore) volumes(account, asset string) *ledger.Volumes {
+	return s.volumesIn(s.state(), account, asset)
+}
+
 func (s *mStore) GetBalances(ctx context.Context, query ledgerstore.BalanceQuery) (ledger.Balances, error) {
 	if err := s.enter("GetBalances"); err != nil {
 		return nil, err
+	}
+	// SELECT ... FOR UPDATE in (account, asset) order: row locks held until the transaction ends
+	accounts := make([]string, 0, len(query))
+	for account := range query {
+		accounts = append(accounts, account)
+	}
+	sort.Strings(accounts)
+	for _, account := range accounts {
+		assets := append([]string(nil), query[account]...)
+		sort.Strings(assets)
+		for _, asset := range assets {
+			if err := s.lock(volKey(account, asset)); err != nil {
+				return nil, s.fail(err)
+			}
+		}
 	}
 	ret := ledger.Balances{}
 	for account, assets := range query {
@@ -345,6 +495,18 @@ func (s *mStore) CommitTransaction(ctx context.Context, tx *ledger.Transaction) 
 	if err := s.enter("CommitTransaction"); err != nil {
 		return err
 	}
+	updates := tx.VolumeUpdates()
+	// the upsert takes the row locks (in the order VolumeUpdates sorts them)
+	for _, u := range updates {
+		if err := s.lock(volKey(u.Account, u.Asset)); err != nil {
+			return s.fail(err)
+		}
+	}
+	if tx.Reference != "" {
+		if err := s.lock("uk:transactions_reference:" + tx.Reference); err != nil {
+			return s.fail(err)
+		}
+	}
 	st := s.state()
 	if tx.Reference != "" {
 		for _, other := range st.txs {
@@ -361,14 +523,12 @@ func (s *mStore) CommitTransaction(ctx context.Context, tx *ledger.Transaction) 
 		}
 	}
 	pcv := ledger.PostCommitVolumes{}
-	for _, u := range tx.VolumeUpdates() {
-		v := s.volumes(u.Account, u.Asset)
-		v.Input = new(big.Int).Add(v.Input, u.Input)
-		v.Output = new(big.Int).Add(v.Output, u.Output)
+	for _, u := range updates {
+		v := s.volumesIn(st, u.Account, u.Asset)
 		if pcv[u.Account] == nil {
 			pcv[u.Account] = ledger.VolumesByAssets{}
 		}
-		pcv[u.Account][u.Asset] = v.Copy()
+		pcv[u.Account][u.Asset] = ledger.Volumes{Input: new(big.Int).Add(v.Input, u.Input), Output: new(big.Int).Add(v.Output, u.Output)}
 	}
 	tx.PostCommitVolumes = pcv
 	if tx.ID == nil {
@@ -386,19 +546,31 @@ func (s *mStore) CommitTransaction(ctx context.Context, tx *ledger.Transaction) 
 	if tx.Timestamp.IsZero() {
 		tx.Timestamp = tx.InsertedAt
 	}
-	if s.db.ledger.HasFeature(features.FeatureMovesHistory, "ON") {
-		for _, p := range tx.Postings {
-			st.moves = append(st.moves,
-				mMove{TxID: *tx.ID, IsSource: true, Account: p.Source, Asset: p.Asset, Amount: new(big.Int).Set(p.Amount)},
-				mMove{TxID: *tx.ID, IsSource: false, Account: p.Destination, Asset: p.Asset, Amount: new(big.Int).Set(p.Amount)})
-		}
+	stored := cloneTx(tx)
+	withMoves := s.db.ledger.HasFeature(features.FeatureMovesHistory, "ON")
+	if s.tx != nil {
+		s.tx.root().notes = append(s.tx.root().notes, fmt.Sprintf("tx:%d", *tx.ID))
 	}
-	st.txs = append(st.txs, cloneTx(tx))
+	s.apply(func(st *mState) {
+		for _, u := range updates {
+			v := s.volumesIn(st, u.Account, u.Asset)
+			v.Input = new(big.Int).Add(v.Input, u.Input)
+			v.Output = new(big.Int).Add(v.Output, u.Output)
+		}
+		if withMoves {
+			for _, p := range stored.Postings {
+				st.moves = append(st.moves,
+					mMove{TxID: *stored.ID, IsSource: true, Account: p.Source, Asset: p.Asset, Amount: new(big.Int).Set(p.Amount)},
+					mMove{TxID: *stored.ID, IsSource: false, Account: p.Destination, Asset: p.Asset, Amount: new(big.Int).Set(p.Amount)})
+			}
+		}
+		st.txs = append(st.txs, cloneTx(stored))
+	})
 	return nil
 }
 
-func (s *mStore) findTx(id uint64) *ledger.Transaction {
-	for _, t := range s.state().txs {
+func findTxIn(st *mState, id uint64) *ledger.Transaction {
+	for _, t := range st.txs {
 		if *t.ID == id {
 			return t
 		}
@@ -406,9 +578,15 @@ func (s *mStore) findTx(id uint64) *ledger.Transaction {
 	return nil
 }
 
+func (s *mStore) findTx(id uint64) *ledger.Transaction { return findTxIn(s.state(), id) }
+
 func (s *mStore) RevertTransaction(ctx context.Context, id uint64, at time.Time) (*ledger.Transaction, bool, error) {
 	if err := s.enter("RevertTransaction"); err != nil {
 		return nil, false, err
+	}
+	// UPDATE ... WHERE id = ? AND reverted_at IS NULL: takes the row lock, then re-evaluates on the latest version
+	if err := s.lock(fmt.Sprintf("tx:%d", id)); err != nil {
+		return nil, false, s.fail(err)
 	}
 	t := s.findTx(id)
 	if t == nil {
@@ -420,14 +598,22 @@ func (s *mStore) RevertTransaction(ctx context.Context, id uint64, at time.Time)
 	if at.IsZero() {
 		at = s.now()
 	}
-	t.RevertedAt = &at
-	t.UpdatedAt = at
-	return cloneTx(t), true, nil
+	s.apply(func(st *mState) {
+		if t := findTxIn(st, id); t != nil {
+			when := at
+			t.RevertedAt = &when
+			t.UpdatedAt = at
+		}
+	})
+	return cloneTx(s.findTx(id)), true, nil
 }
 
 func (s *mStore) UpdateTransactionMetadata(ctx context.Context, id uint64, m metadata.Metadata, at time.Time) (*ledger.Transaction, bool, error) {
 	if err := s.enter("UpdateTransactionMetadata"); err != nil {
 		return nil, false, err
+	}
+	if err := s.lock(fmt.Sprintf("tx:%d", id)); err != nil {
+		return nil, false, s.fail(err)
 	}
 	t := s.findTx(id)
 	if t == nil {
@@ -440,23 +626,31 @@ func (s *mStore) UpdateTransactionMetadata(ctx context.Context, id uint64, m met
 		}
 	}
 	if modified {
-		if t.Metadata == nil {
-			t.Metadata = metadata.Metadata{}
-		}
-		for k, v := range m {
-			t.Metadata[k] = v
-		}
 		if at.IsZero() {
 			at = s.now()
 		}
-		t.UpdatedAt = at
+		md := cloneMeta(m)
+		s.apply(func(st *mState) {
+			if t := findTxIn(st, id); t != nil {
+				if t.Metadata == nil {
+					t.Metadata = metadata.Metadata{}
+				}
+				for k, v := range md {
+					t.Metadata[k] = v
+				}
+				t.UpdatedAt = at
+			}
+		})
 	}
-	return cloneTx(t), modified, nil
+	return cloneTx(s.findTx(id)), modified, nil
 }
 
 func (s *mStore) DeleteTransactionMetadata(ctx context.Context, id uint64, key string, at time.Time) (*ledger.Transaction, bool, error) {
 	if err := s.enter("DeleteTransactionMetadata"); err != nil {
 		return nil, false, err
+	}
+	if err := s.lock(fmt.Sprintf("tx:%d", id)); err != nil {
+		return nil, false, s.fail(err)
 	}
 	t := s.findTx(id)
 	if t == nil {
@@ -464,13 +658,17 @@ func (s *mStore) DeleteTransactionMetadata(ctx context.Context, id uint64, key s
 	}
 	_, modified := t.Metadata[key]
 	if modified {
-		delete(t.Metadata, key)
 		if at.IsZero() {
 			at = s.now()
 		}
-		t.UpdatedAt = at
+		s.apply(func(st *mState) {
+			if t := findTxIn(st, id); t != nil {
+				delete(t.Metadata, key)
+				t.UpdatedAt = at
+			}
+		})
 	}
-	return cloneTx(t), modified, nil
+	return cloneTx(s.findTx(id)), modified, nil
 }
 
 // ---- accounts ----
@@ -479,33 +677,43 @@ func (s *mStore) UpdateAccountsMetadata(ctx context.Context, m map[string]metada
 	if err := s.enter("UpdateAccountsMetadata"); err != nil {
 		return err
 	}
-	st := s.state()
-	for address, md := range m {
-		acc, ok := st.accounts[address]
-		if !ok {
-			st.accounts[address] = &mAccount{Address: address, FirstUsage: at, InsertionDate: at, UpdatedAt: at, Metadata: cloneMeta(md)}
-			if st.accounts[address].Metadata == nil {
-				st.accounts[address].Metadata = metadata.Metadata{}
-			}
-			continue
-		}
-		contained := true
-		for k, v := range md {
-			if old, ok := acc.Metadata[k]; !ok || old != v {
-				contained = false
-			}
-		}
-		if contained {
-			continue // WHERE not accounts.metadata @> excluded.metadata
-		}
-		for k, v := range md {
-			acc.Metadata[k] = v
-		}
-		acc.UpdatedAt = at
-		if at.Before(acc.FirstUsage) {
-			acc.FirstUsage = at
+	for _, address := range sortedKeys(m) {
+		if err := s.lock("acc:" + address); err != nil {
+			return s.fail(err)
 		}
 	}
+	in := map[string]metadata.Metadata{}
+	for a, md := range m {
+		in[a] = cloneMeta(md)
+	}
+	s.apply(func(st *mState) {
+		for address, md := range in {
+			acc, ok := st.accounts[address]
+			if !ok {
+				st.accounts[address] = &mAccount{Address: address, FirstUsage: at, InsertionDate: at, UpdatedAt: at, Metadata: cloneMeta(md)}
+				if st.accounts[address].Metadata == nil {
+					st.accounts[address].Metadata = metadata.Metadata{}
+				}
+				continue
+			}
+			contained := true
+			for k, v := range md {
+				if old, ok := acc.Metadata[k]; !ok || old != v {
+					contained = false
+				}
+			}
+			if contained {
+				continue // WHERE not accounts.metadata @> excluded.metadata
+			}
+			for k, v := range md {
+				acc.Metadata[k] = v
+			}
+			acc.UpdatedAt = at
+			if at.Before(acc.FirstUsage) {
+				acc.FirstUsage = at
+			}
+		}
+	})
 	return nil
 }
 
@@ -513,41 +721,59 @@ func (s *mStore) UpsertAccounts(ctx context.Context, accounts ...ledger.AccountW
 	if err := s.enter("UpsertAccounts"); err != nil {
 		return err
 	}
-	st := s.state()
-	now := s.now()
+	addrs := make([]string, 0, len(accounts))
 	for _, a := range accounts {
-		first := a.FirstUsage
-		if first.IsZero() {
-			first = now
-		}
-		ins := a.InsertionDate
-		if ins.IsZero() {
-			ins = now
-		}
-		upd := a.UpdatedAt
-		if upd.IsZero() {
-			upd = now
-		}
-		acc, ok := st.accounts[a.Address]
-		if !ok {
-			md := metadata.Metadata{}
-			for k, v := range a.DefaultMetadata {
-				md[k] = v
-			}
-			for k, v := range a.Metadata {
-				md[k] = v
-			}
-			st.accounts[a.Address] = &mAccount{Address: a.Address, FirstUsage: first, InsertionDate: ins, UpdatedAt: upd, Metadata: md}
-			continue
-		}
-		for k, v := range a.Metadata {
-			acc.Metadata[k] = v
-		}
-		if first.Before(acc.FirstUsage) {
-			acc.FirstUsage = first
-		}
-		acc.UpdatedAt = upd
+		addrs = append(addrs, a.Address)
 	}
+	sort.Strings(addrs)
+	for _, a := range addrs {
+		if err := s.lock("acc:" + a); err != nil {
+			return s.fail(err)
+		}
+	}
+	now := s.now()
+	type row struct {
+		address          string
+		first, ins, upd  time.Time
+		md, defaults     metadata.Metadata
+	}
+	var rows []row
+	for _, a := range accounts {
+		r := row{address: a.Address, first: a.FirstUsage, ins: a.InsertionDate, upd: a.UpdatedAt, md: cloneMeta(a.Metadata), defaults: cloneMeta(a.DefaultMetadata)}
+		if r.first.IsZero() {
+			r.first = now
+		}
+		if r.ins.IsZero() {
+			r.ins = now
+		}
+		if r.upd.IsZero() {
+			r.upd = now
+		}
+		rows = append(rows, r)
+	}
+	s.apply(func(st *mState) {
+		for _, a := range rows {
+			acc, ok := st.accounts[a.address]
+			if !ok {
+				md := metadata.Metadata{}
+				for k, v := range a.defaults {
+					md[k] = v
+				}
+				for k, v := range a.md {
+					md[k] = v
+				}
+				st.accounts[a.address] = &mAccount{Address: a.address, FirstUsage: a.first, InsertionDate: a.ins, UpdatedAt: a.upd, Metadata: md}
+				continue
+			}
+			for k, v := range a.md {
+				acc.Metadata[k] = v
+			}
+			if a.first.Before(acc.FirstUsage) {
+				acc.FirstUsage = a.first
+			}
+			acc.UpdatedAt = a.upd
+		}
+	})
 	return nil
 }
 
@@ -555,9 +781,14 @@ func (s *mStore) DeleteAccountMetadata(ctx context.Context, address, key string)
 	if err := s.enter("DeleteAccountMetadata"); err != nil {
 		return err
 	}
-	if acc, ok := s.state().accounts[address]; ok {
-		delete(acc.Metadata, key)
+	if err := s.lock("acc:" + address); err != nil {
+		return s.fail(err)
 	}
+	s.apply(func(st *mState) {
+		if acc, ok := st.accounts[address]; ok {
+			delete(acc.Metadata, key)
+		}
+	})
 	return nil
 }
 
@@ -567,8 +798,10 @@ func (s *mStore) InsertSchema(ctx context.Context, data *ledger.Schema) error {
 	if err := s.enter("InsertSchema"); err != nil {
 		return err
 	}
-	st := s.state()
-	for _, sc := range st.schemas {
+	if err := s.lock("uk:schemas:" + data.Version); err != nil {
+		return s.fail(err)
+	}
+	for _, sc := range s.state().schemas {
 		if sc.Version == data.Version {
 			return s.fail(postgres.ErrConstraintsFailed{})
 		}
@@ -577,7 +810,7 @@ func (s *mStore) InsertSchema(ctx context.Context, data *ledger.Schema) error {
 		data.CreatedAt = s.now()
 	}
 	cp := *data
-	st.schemas = append(st.schemas, &cp)
+	s.apply(func(st *mState) { c := cp; st.schemas = append(st.schemas, &c) })
 	return nil
 }
 
@@ -616,6 +849,19 @@ func (s *mStore) InsertLog(ctx context.Context, log *ledger.Log) error {
 	if err := s.enter("InsertLog"); err != nil {
 		return err
 	}
+	sync := s.db.ledger.HasFeature(features.FeatureHashLogs, "SYNC")
+	if sync {
+		// select pg_advisory_xact_lock(ledger id): serialises the log inserts of a ledger until the transaction ends
+		if err := s.lock("advisory:ledger"); err != nil {
+			return s.fail(err)
+		}
+	}
+	if log.IdempotencyKey != "" {
+		// unique index (ledger, idempotency_key): a concurrent uncommitted insert of the same key makes this one wait
+		if err := s.lock("uk:logs_idempotency_key:" + log.IdempotencyKey); err != nil {
+			return s.fail(err)
+		}
+	}
 	st := s.state()
 	if log.IdempotencyKey != "" {
 		for _, l := range st.logs {
@@ -638,11 +884,22 @@ func (s *mStore) InsertLog(ctx context.Context, log *ledger.Log) error {
 	if log.Date.IsZero() {
 		log.Date = s.now()
 	}
-	if s.db.ledger.HasFeature(features.FeatureHashLogs, "SYNC") && log.Hash == nil {
-		// SHA-256 chain hash: opaque, distinct per log id
-		log.Hash = []byte{'h', byte(*log.ID)}
+	if sync && log.Hash == nil {
+		// set_log_hash: chained on the last log visible to this statement (greatest id); SHA-256 is opaque here:
+		// the model records the predecessor id in the hash bytes
+		var prev uint64
+		for _, l := range st.logs {
+			if *l.ID > prev {
+				prev = *l.ID
+			}
+		}
+		log.Hash = []byte{'h', byte(*log.ID), byte(prev)}
 	}
-	st.logs = append(st.logs, cloneLog(log))
+	stored := cloneLog(log)
+	if s.tx != nil {
+		s.tx.root().notes = append(s.tx.root().notes, fmt.Sprintf("log:%d", *log.ID))
+	}
+	s.apply(func(st *mState) { st.logs = append(st.logs, cloneLog(stored)) })
 	return nil
 }
 
